@@ -96,8 +96,9 @@ def run_units(scratch, obligations):
         if twins and not compile_error:
             def one(o):
                 fn = o.harness.split("::")[-1]
-                tsrc, _ = extract.render(read(u.path), falsify=fn)
-                tpath = os.path.join(vdir, "%s_twin_%s.rs" % (modname, fn))
+                # falsify exactly this function (Type::name), not namesakes in other impl blocks
+                tsrc, _ = extract.render(read(u.path), falsify=o.harness if "::" in o.harness else fn)
+                tpath = os.path.join(vdir, "%s_twin_%s.rs" % (modname, re.sub(r"\W", "_", o.harness)))
                 write(tpath, tsrc)
                 d, dg, _, _, _ = _verify(tpath)
                 fr = _fn_results(d, os.path.basename(tpath)[:-3])
